@@ -25,6 +25,7 @@ THEOREMS = [
     "OllamaVerif.C05.decode_encode_any_key_order",
     "OllamaVerif.C05.end_offset_is_file_length",
     "OllamaVerif.C05.create_takes_written_file_whole",
+    "OllamaVerif.C05.create_layers_disjoint",
     "OllamaVerif.Gguf.tensorSize_reverse",
     "OllamaVerif.C05.F1_pinned_offsets_alias",
     "OllamaVerif.Tie.C05.type_table_complete",
@@ -61,7 +62,22 @@ def run(ctx):
         ctx.violation("driver-failed", "", out[-1500:], no_input=True)
     ctx.read_stats(outdir)
     ctx.l1(outdir)
-    ctx.classify(ctx.l2(outdir))
+    failures = ctx.l2(outdir)
+    # create's use of the end offset (server/create.go ggufLayers is an anchor of C05): uploads of one and of several
+    # models back to back through the real POST /api/create; layer sizes and kinds vs the model (L1, oracle-c10) and
+    # "every layer cut out of the upload is exactly one model" on the layer blobs the server wrote (L2)
+    if not ctx.replay:
+        arc, aout, apidir = ctx.go_test("./server/", {"server/zz_verif_c10_test.go": "server/zz_verif_c10_test.go"},
+                                        "^TestVerifC10API$", env={"VERIF_N": ctx.scale(12, 200)}, timeout=1500)
+        if arc != 0:
+            ctx.violation("driver-failed", "api", aout[-1500:], no_input=True)
+        ctx.read_stats(apidir)
+        failures += [f for f in ctx.l2(apidir) if f["kind"] == "api-create-layer-not-one-model"]
+        ctx.oracle_name = "C10"
+        ctx.lake_build(["oracle-c10"])
+        ctx.l1(apidir, label="L1-create")
+        ctx.oracle_name = None
+    ctx.classify(failures)
     if ctx.thorough:
         ctx.leanchecker(MODULES)
     return ctx.finish(
